@@ -104,7 +104,7 @@ impl ProcfsHandle {
 //@prove procfs.ProcfsHandle.open_base
 //@prove procfs.ProcfsHandle.open
 //@prove procfs.ProcfsHandle.readlink
-//@prove procfs.ProcfsHandle.open_follow
+//@prove procfs.ProcfsHandle.open_follow u14
 //@prove procfs.ProcfsHandle.try_from_fd
 //@prove procfs.ProcfsHandle.new_fsopen
 //@prove procfs.ProcfsHandle.new_open_tree
